@@ -14,9 +14,13 @@ import (
 
 func init() { cmds["console"] = runConsole }
 
+// the repository whose programs are driven in-package (go test -tags verif)
+var repoDir = "/repo"
+
 type consoleCase struct {
 	expect []string // statements typed (nil: no expectation, correspondence only)
 	keys   []rune
+	stream []byte // non-nil: a byte stream (op `bytes`), the model of the line editor is the oracle
 }
 
 var consoleStmts = []string{
@@ -85,6 +89,15 @@ func runConsole(cfg *config) {
 						b, _ := hex.DecodeString(h)
 						cc.expect = append(cc.expect, string(b))
 					}
+				case "bytes":
+					if len(f) > 1 && f[1] != "-" {
+						cc.stream, _ = hex.DecodeString(f[1])
+					}
+					if cc.stream == nil {
+						cc.stream = []byte{}
+					}
+					cases = append(cases, cc)
+					cc = consoleCase{}
 				case "keys":
 					for _, k := range f[1:] {
 						var n int
@@ -180,18 +193,25 @@ func runConsole(cfg *config) {
 			cases = append(cases, consoleCase{expect: []string{big, "SELECT 2;"}, keys: []rune(big + "\rSELECT 2;\r")})
 		}
 	}
+	if cfg.replay == nil {
+		cases = append(cases, editCases(cfg)...)
+	}
 	// run the real terminal in-package: go test -tags verif in /repo/cmd/console
 	cwd, _ := os.Getwd()
 	inPath, outPath := filepath.Join(cwd, "console.in"), filepath.Join(cwd, "console.out")
 	fin, _ := os.Create(inPath)
 	w := bufio.NewWriter(fin)
 	for _, c := range cases {
+		if c.stream != nil {
+			fmt.Fprintln(w, hex.EncodeToString(c.stream))
+			continue
+		}
 		fmt.Fprintln(w, hex.EncodeToString([]byte(string(c.keys))))
 	}
 	w.Flush()
 	fin.Close()
 	cmd := exec.Command("go", "test", "-tags", "verif", "-vet=off", "-count=1", "-run", "TestVerifConsoleDriver", "./cmd/console")
-	cmd.Dir = "/repo"
+	cmd.Dir = repoDir
 	cmd.Env = append(os.Environ(), "VERIF_CONSOLE_IN="+inPath, "VERIF_CONSOLE_OUT="+outPath)
 	if out, err := cmd.CombinedOutput(); err != nil {
 		fmt.Fprintf(os.Stderr, "console driver failed: %v\n%s\n", err, out)
@@ -219,7 +239,15 @@ func runConsole(cfg *config) {
 		for i, k := range c.keys {
 			ks[i] = fmt.Sprint(int(k))
 		}
-		cfg.tr.Op("keys %s", strings.Join(ks, " "))
+		if c.stream != nil {
+			if len(c.stream) == 0 {
+				cfg.tr.Op("bytes -")
+			} else {
+				cfg.tr.Op("bytes %s", hex.EncodeToString(c.stream))
+			}
+		} else {
+			cfg.tr.Op("keys %s", strings.Join(ks, " "))
+		}
 		nsub := 0
 		for sc.Scan() {
 			l := sc.Text()
@@ -239,6 +267,10 @@ func runConsole(cfg *config) {
 			}
 		}
 		cfg.st.Inc(fmt.Sprintf("submissions.%d", nsub))
+		if c.stream != nil {
+			cfg.st.Seen(string(c.stream), false)
+			continue
+		}
 		cfg.st.Seen(string(c.keys), quoted)
 		if quoted {
 			cfg.st.Inc("cases-with-semicolon-in-literal")
@@ -248,4 +280,376 @@ func runConsole(cfg *config) {
 	fout.Close()
 	os.Remove(inPath)
 	os.Remove(outPath)
+	if cfg.replay == nil {
+		consoleProgram(cfg, id)
+	}
+}
+
+// consoleProgram: the program itself - the loop main() runs, over a pseudo terminal, with a real
+// session.  The statements are CREATE DATABASE statements (what reaches the engine shows in the data
+// directory); they are typed with line breaks, several per line, and pasted - a terminal in
+// bracketed-paste mode wraps a paste in ESC[200~ ... ESC[201~.  Judge only (the model of the line
+// editor is compared with Terminal.ReadLine above; here the question is whether what ReadLine hands
+// over reaches the engine).
+func consoleProgram(cfg *config, id int) {
+	r := cfg.rng.Fork()
+	type pcase struct {
+		dbs    []string
+		stream []byte
+	}
+	var pcs []pcase
+	n := 6 * cfg.scale
+	for i := 0; i < n; i++ {
+		rr := r.Fork()
+		var dbs []string
+		var stream []byte
+		k := rr.Range(1, 5)
+		for j := 0; j < k; j++ {
+			name := fmt.Sprintf("p%d_%d", i, j)
+			dbs = append(dbs, name)
+			words := []string{"CREATE", "DATABASE", name + ";"}
+			if rr.Bool() {
+				words = []string{"create", "database", name, ";"}
+			}
+			var text []byte
+			for wi, w := range words {
+				if wi > 0 {
+					text = append(text, []byte([]string{" ", "\r", "  "}[rr.Intn(3)])...)
+				}
+				text = append(text, w...)
+			}
+			text = append(text, '\r')
+			switch {
+			case i%3 == 1:
+				// pasted: the whole statement inside one paste
+				stream = append(stream, "\x1b[200~"...)
+				stream = append(stream, text...)
+				stream = append(stream, "\x1b[201~"...)
+			case i%3 == 2 && j%2 == 0:
+				// a paste that ends inside the statement, the rest typed
+				cut := len(text) / 2
+				stream = append(stream, "\x1b[200~"...)
+				stream = append(stream, text[:cut]...)
+				stream = append(stream, "\x1b[201~"...)
+				stream = append(stream, text[cut:]...)
+			default:
+				stream = append(stream, text...)
+			}
+		}
+		pcs = append(pcs, pcase{dbs, stream})
+	}
+	cwd, _ := os.Getwd()
+	inPath, outPath := filepath.Join(cwd, "console-main.in"), filepath.Join(cwd, "console-main.out")
+	fin, _ := os.Create(inPath)
+	w := bufio.NewWriter(fin)
+	for _, c := range pcs {
+		fmt.Fprintln(w, hex.EncodeToString(c.stream))
+	}
+	w.Flush()
+	fin.Close()
+	defer os.Remove(inPath)
+	defer os.Remove(outPath)
+	cmd := exec.Command("go", "test", "-tags", "verif", "-vet=off", "-count=1", "-run", "TestVerifConsoleMainDriver", "./cmd/console")
+	cmd.Dir = repoDir
+	cmd.Env = append(os.Environ(), "VERIF_CONSOLE_MAIN_IN="+inPath, "VERIF_CONSOLE_MAIN_OUT="+outPath)
+	if out, err := cmd.CombinedOutput(); err != nil {
+		fmt.Fprintf(os.Stderr, "console program driver failed: %v\n%s\n", err, out)
+		os.Exit(1)
+	}
+	fout, err := os.Open(outPath)
+	if err != nil {
+		return
+	}
+	defer fout.Close()
+	sc := bufio.NewScanner(fout)
+	for _, c := range pcs {
+		id++
+		cfg.tr.Case(id)
+		cfg.tr.Op("expectdbs %s", strings.Join(c.dbs, " "))
+		cfg.tr.Op("main %s", hex.EncodeToString(c.stream))
+		for sc.Scan() {
+			l := sc.Text()
+			if l == "begin" {
+				continue
+			}
+			if l == "end" {
+				break
+			}
+			cfg.tr.Tilde(l)
+		}
+		cfg.st.Inc("program-runs")
+	}
+}
+
+// ---- statements typed WITH corrections, cursor movement, history recall and pastes ----
+//
+// Every case is one complete byte stream for Terminal.ReadLine (op `bytes <hex>`); the model of the
+// line editor (handleKey for every key, bytesToKey, the loop of readLine) is the oracle: the real
+// terminal and the model must hand over the same lines.  Kept away from one known defect of the
+// code: ESC followed by 255 or more bytes without a letter or '~' makes readLine spin forever - every
+// ESC written here is followed by the letter that ends its sequence within a few bytes (or by the end
+// of the stream).
+
+var (
+	edWrong   = []string{"x", "Q", "zz", "SELEC", "form", "1", "'", ";", "wher ", " ", "é", "✓", "\\"}
+	edUnknown = []string{"\x1b[3~", "\x1bOP", "\x1b[1;5C", "\x1b[15~", "\x1b[1;3A", "\x1b[Z", "\x1bb", "\x1b[2~", "\x1b\x1b[A"}
+	edIgnored = []string{"\x07", "\t", "\n", "\x0c", "\x0f", "\x11", "\x1c", "\x1f"}
+	edInPaste = []string{"\x01", "\x02", "\x7f", "\x08", "\x03", "\x04", "\t", "\n", "\x15", "\x17", "\x1b[A", "\x1b[1;3D", "\x1b[200~", "\x10", "\x0b", "\x0c"}
+)
+
+func edPick(r *hx.Rng, l []string) string { return l[r.Intn(len(l))] }
+
+// edLeft / edRight move the cursor n places; edEnd / edHome go to the end / the beginning.
+func edLeft(r *hx.Rng, n int) string {
+	var b strings.Builder
+	for i := 0; i < n; i++ {
+		if r.Bool() {
+			b.WriteString("\x02")
+		} else {
+			b.WriteString("\x1b[D")
+		}
+	}
+	return b.String()
+}
+
+func edRight(r *hx.Rng, n int) string {
+	var b strings.Builder
+	for i := 0; i < n; i++ {
+		if r.Bool() {
+			b.WriteString("\x06")
+		} else {
+			b.WriteString("\x1b[C")
+		}
+	}
+	return b.String()
+}
+
+func edEnd(r *hx.Rng) string {
+	if r.Bool() {
+		return "\x05"
+	}
+	return "\x1b[F"
+}
+
+func edHome(r *hx.Rng) string {
+	if r.Bool() {
+		return "\x01"
+	}
+	return "\x1b[H"
+}
+
+func edErase(r *hx.Rng, n int) string {
+	var b strings.Builder
+	for i := 0; i < n; i++ {
+		if r.Bool() {
+			b.WriteByte(127)
+		} else {
+			b.WriteByte(8)
+		}
+	}
+	return b.String()
+}
+
+// edChunk: bytes whose net effect, with the cursor at the end of the line, is (mostly) to append
+// chunk; lineStart: nothing is in the buffer before the chunk.
+func edChunk(r *hx.Rng, chunk []rune, lineStart bool) string {
+	text := string(chunk)
+	n := len(chunk)
+	switch r.Intn(16) {
+	case 0, 1, 2: // plain
+		return text
+	case 3: // wrong characters, erased one by one
+		w := edPick(r, edWrong)
+		return w + edErase(r, len([]rune(w))) + text
+	case 4: // a wrong word, erased with ^W
+		return "wrongword" + "\x17" + text
+	case 5: // a wrong beginning of the line, erased with ^U
+		if lineStart {
+			return edPick(r, edWrong) + "garbage ; '" + "\x15" + text
+		}
+		return text + "x" + edErase(r, 1)
+	case 6: // a character left out, put in after moving left, then back to the end
+		if n < 2 {
+			return text
+		}
+		i := r.Intn(n)
+		back := n - 1 - i
+		s := string(chunk[:i]) + string(chunk[i+1:]) + edLeft(r, back) + string(chunk[i])
+		if r.Bool() {
+			return s + edEnd(r)
+		}
+		return s + edRight(r, back)
+	case 7: // the first character of the line left out: Home, type it, End
+		if !lineStart || n < 2 {
+			return text
+		}
+		return string(chunk[1:]) + edHome(r) + string(chunk[0]) + edEnd(r)
+	case 8: // too much typed: move left, delete to the end of the line with ^K
+		w := edPick(r, edWrong)
+		return text + w + edLeft(r, len([]rune(w))) + "\x0b"
+	case 9: // a wrong character deleted with ^D after stepping left
+		return text + "X" + edLeft(r, 1) + "\x04"
+	case 10: // a word boundary: Alt-left, insert a wrong character, erase it, Alt-right / End
+		s := text + "\x1b[1;3D" + "q" + edErase(r, 1)
+		if r.Bool() {
+			return s + "\x1b[1;3C" + edEnd(r)
+		}
+		return s + edEnd(r)
+	case 11: // keys the editor ignores or swallows
+		return edPick(r, edUnknown) + text + edPick(r, edIgnored) + edPick(r, edUnknown)
+	case 12: // clear screen, movement beyond both ends
+		return "\x0c" + text + edRight(r, 2) + edHome(r) + edLeft(r, 1) + edEnd(r)
+	case 13: // pasted (no line break inside)
+		return "\x1b[200~" + text + "\x1b[201~"
+	case 14: // pasted with control characters, which go into the line verbatim
+		i := r.Intn(n + 1)
+		return "\x1b[200~" + string(chunk[:i]) + edPick(r, edInPaste) + string(chunk[i:]) + "\x1b[201~"
+	default: // movement by words and back
+		return text + "\x1b[1;3D" + "\x1b[1;3D" + "\x1b[1;3C" + edEnd(r)
+	}
+}
+
+// edStatement types one statement in chunks; blanks outside quotes may become line breaks.
+func edStatement(r *hx.Rng, s string, lineStart bool) string {
+	var b strings.Builder
+	rs := []rune(s)
+	for len(rs) > 0 {
+		n := r.Range(1, 9)
+		if n > len(rs) {
+			n = len(rs)
+		}
+		b.WriteString(edChunk(r, rs[:n], lineStart))
+		lineStart = false
+		rs = rs[n:]
+	}
+	return b.String()
+}
+
+func editStream(r *hx.Rng) []byte {
+	var b strings.Builder
+	lines := r.Range(1, 6)
+	submitted := 0
+	for l := 0; l < lines; l++ {
+		switch {
+		case submitted > 0 && r.Chance(1, 3):
+			// recall: up n times, down m times, perhaps edit, submit again
+			up := r.Range(1, submitted+2)
+			for i := 0; i < up; i++ {
+				if r.Bool() {
+					b.WriteString("\x10")
+				} else {
+					b.WriteString("\x1b[A")
+				}
+			}
+			for i, down := 0, r.Intn(up+1); i < down; i++ {
+				if r.Bool() {
+					b.WriteString("\x0e")
+				} else {
+					b.WriteString("\x1b[B")
+				}
+			}
+			switch r.Intn(4) {
+			case 0: // edit the recalled entry at its end and take the edit back
+				b.WriteString("zz" + edErase(r, 2))
+			case 1: // change it: a new statement in front
+				b.WriteString(edHome(r) + "SELECT 0; ")
+			case 2: // replace it
+				b.WriteString("\x15" + edStatement(r, consoleStmts[r.Intn(len(consoleStmts))], true))
+			}
+			b.WriteString("\r")
+			submitted++
+		case r.Chance(1, 8):
+			// typed into a pending line, then the history and back to the pending line
+			b.WriteString("SELECT 4" + "\x10" + "\x0e" + ";" + "\r")
+			submitted++
+		case r.Chance(1, 8):
+			// a line break in the middle of a statement, with the cursor not at the end
+			b.WriteString("SELECT a,b FROM t" + edLeft(r, r.Range(1, 8)) + "\r" + edEnd(r) + " WHERE a = 1;" + "\r")
+			submitted++
+		case r.Chance(1, 10):
+			// a paste with line breaks: begun on a line already typed into (the first line is handed over
+			// as typed, a second one comes with the paste indicator), or as a whole
+			if r.Bool() {
+				b.WriteString("SELECT ")
+			}
+			b.WriteString("\x1b[200~" + "1;\r" + "SELECT 2" + "\x1b[201~" + ";\r")
+			if r.Bool() {
+				b.WriteString("\x1b[200~" + "SELECT 3;\rSELECT 4;\r" + "\x1b[201~")
+			}
+			submitted++
+		default:
+			k := r.Range(1, 3)
+			for j := 0; j < k; j++ {
+				b.WriteString(edStatement(r, consoleStmts[r.Intn(len(consoleStmts))], j == 0))
+				if j < k-1 {
+					b.WriteString(" ")
+				}
+			}
+			b.WriteString("\r")
+			submitted += k
+		}
+	}
+	switch r.Intn(8) {
+	case 0:
+		b.WriteString("\x04SELECT 9;\r") // ^D on the empty line ends the console
+	case 1:
+		b.WriteString("\x03SELECT 9;\r") // ^C
+	case 2:
+		b.WriteString("SEL\x04ECT 8;\r\x04") // ^D on a line that is not empty deletes (nothing at the end)
+	case 3:
+		b.WriteString("SELECT 7;\x1b[") // an incomplete sequence at the end of the stream
+	}
+	return []byte(b.String())
+}
+
+func editCases(cfg *config) []consoleCase {
+	r := cfg.rng.Fork()
+	var cases []consoleCase
+	add := func(s string) { cases = append(cases, consoleCase{stream: []byte(s)}) }
+	// fixed: one stream per editing key
+	for _, s := range []string{
+		"SELECT 1\x15USE d;\r", "SELECT 12\x7f;\r", "SELECT 12\x08;\r", "ELECT 1;\x01S\r", "SELECT 1;\r\x10\r",
+		"SELECT 1;\rSELECT 2;\r\x10\x10\x0e\r", "SELECT 1; SELECT 2;\r\x1b[A\r\x1b[A\x1b[A\r", "SELECT 1;\r\x10\r\x0e\r",
+		"SELECT one two\x17\x171;\r", "SELECT 1; garbage\x1b[1;3D\x0b\r", "SELEC 1;\x1b[H\x1b[1;3CT\x05\r",
+		"ab\x1b[200~c\x01\x7f\x1b[Ad\x1b[201~;\r", "\x1b[200~SELECT 1;\rSELECT 2;\r\x1b[201~SELECT 3;\r",
+		"a\x1b[200~SELECT 1;\rSELECT 2;\r\x1b[201~SELECT 3;\r", "SELECT 1;\r\rx\x10\x0e;\r", "\x1b[3~SELECT\x1bOP 1;\r",
+		"SELECT 1;\x03\r", "\x04", "SELECT 1\x04;\r", "SELECT 1X;\x02\x02\x04\r", "\xc3", "\xffSELECT 1;\r", "SELECT '\xe2\x82';\r",
+		"", "\r", "\x10\x0e\r", "  a  b  \x17\x17\x17;\r", " ab\x17;\r", "a b\x1b[1;3D\x1b[1;3D\x1b[1;3Dc;\r",
+	} {
+		add(s)
+	}
+	// more than 100 entries: the ring forgets the oldest
+	{
+		var b strings.Builder
+		for i := 0; i < 103; i++ {
+			fmt.Fprintf(&b, "SELECT %d;\r", i)
+		}
+		for i := 0; i < 105; i++ {
+			b.WriteString("\x10")
+		}
+		b.WriteString("\r\x10\x10\x0e\x0e\x0e\r")
+		add(b.String())
+	}
+	// every sequence at every alignment with the 256-byte read buffer
+	for l := 236; l < 262; l++ {
+		for _, q := range []string{"\x1b[A", "\x1b[D", "\x1b[1;3D", "\x1b[200~q\x01\x1b[201~", "\x1b[3~", "é✓😀", "\x1bOP", "\x01Z"} {
+			add("SELECT 1;\rSELECT '" + strings.Repeat("x", l-18) + q + "W';\r")
+		}
+	}
+	for i := 0; i < 300*cfg.scale; i++ {
+		cases = append(cases, consoleCase{stream: editStream(r.Fork())})
+	}
+	// correspondence only: any mixture of text, control bytes and sequences
+	soup := []string{"SELECT 1;", "USE d;", "a", "b c", " ", ";", "'", "\"", "`", "\\", "x;y", "  ", "ü✓😀", "\xc3", "\xff", "\xe2\x82", "\xf0\x9f\x98",
+		"\r", "\r", "\r", "\x01", "\x02", "\x05", "\x06", "\x08", "\x0b", "\x0c", "\x17", "\x0e", "\x10", "\x10", "\x15", "\x7f", "\x7f", "\t", "\n", "\x04", "\x03", "\x07", "\x1f",
+		"\x1b[A", "\x1b[B", "\x1b[C", "\x1b[D", "\x1b[H", "\x1b[F", "\x1b[1;3C", "\x1b[1;3D", "\x1b[1;5C", "\x1b[3~", "\x1bOP", "\x1b[200~", "\x1b[201~", "\x1b\x1b[A", "\x1b[2", "\x1b[1;3"}
+	for i := 0; i < 200*cfg.scale; i++ {
+		rr := r.Fork()
+		var b strings.Builder
+		for k, n := 0, rr.Range(0, 40); k < n; k++ {
+			b.WriteString(soup[rr.Intn(len(soup))])
+		}
+		add(b.String() + "z") // (a letter: no ESC is left without the end of its sequence for long)
+	}
+	return cases
 }
